@@ -325,6 +325,13 @@ func runC01(c *fw.Ctx) int {
 			roundTripField(c, "packed", k, interestingTags[(n+len(k.name))%len(interestingTags)], wval{us: us}, n%2 == 0)
 		}
 	}
+	// … and around 16384 bytes (three-byte length prefix)
+	for _, k := range pk {
+		bigPackedLists(k, c.Rng, func(v wval) {
+			roundTripField(c, "packed", k, interestingTags[c.Rng.Intn(len(interestingTags))], v, c.Rng.Bool())
+		})
+	}
+	c.FlushModel()
 	rounds := n / 4
 	for i := 0; i < rounds; i++ {
 		k := sk[c.Rng.Intn(len(sk))]
